@@ -130,6 +130,36 @@ def rand_bundle(rnd, depth, bad, top='rand'):
     return Bn(time_val(t), els)
 
 
+def enc_len(v):
+    """encoded length of an abstract value - bookkeeping only, to aim generated sizes at the limit"""
+    t = v['t']
+    pad = lambda n: n + 4 - n % 4
+    if t == 'fn':
+        return enc_len(v['ret'])
+    if t == 'm':
+        return pad(len(v['a'])) + pad(len(v['args']) + 1) + sum(arg_len(a) for a in v['args'])
+    if t == 'B':
+        return 16 + sum(4 + enc_len(e) for e in v['el'])
+    raise AssertionError(v)
+
+
+def arg_len(a):
+    t = a['t']
+    if t == 'fn':
+        return arg_len(a['ret'])
+    if t == 's':
+        n = a['z'] if 'z' in a else len(a['b'])
+        return n + 4 - n % 4
+    if t == 'b':
+        n = a['z'] if 'z' in a else len(a['b'])
+        return 4 + n + (-n % 4)
+    if t in ('[', ']'):
+        return 0
+    if t in ('m', 'B'):
+        return 4 + enc_len(a)
+    return 4
+
+
 def features(v, out=None):
     """input classes present in a value (bookkeeping)"""
     out = set() if out is None else out
